@@ -25,6 +25,7 @@ SK["map"] = ('''MAP
   END
   CONFIG "MS_ERRORFILE" "H04"
   config 'proj_lib' x
+  Config "PROJ_LIB" 'y'
   WEB
     METADATA
       "WMS_Title" "H05"
@@ -77,7 +78,7 @@ END''',
              [Hole("H01"), Hole("H02", quote="'"), Hole("H03"), Hole("H04"), Hole("H05"), Hole("H06"), Hole("H07"), Hole("H08")],
              # expected content; H01 does not occur: a keyword given twice keeps its last value; "WMS_Title" then 'wms_title': last wins
              [('__type__', 'map'), ('name', 'H02'), ('extent', [-180, -90.5, 180, 90]), ('size', [800, 600]), ('angle', 10.5), ('imagecolor', '#ffaa00'),
-              ('projection', ['init=epsg:4326', 'H03']), ('config', [('ms_errorfile', 'H04'), ('proj_lib', 'x')]),
+              ('projection', ['init=epsg:4326', 'H03']), ('config', [('ms_errorfile', 'H04'), ('proj_lib', 'y')]),
               ('web', [('__type__', 'web'), ('metadata', [('wms_title', 'H06'), ('k', 'v'), ('__type__', 'metadata')]),
                        ('validation', [('q', 'H07'), ('__type__', 'validation')])]),
               ('layers', [[('__type__', 'layer'), ('name', 'l1'), ('type', 'POINT'), ('processing', ['H08', 'b=2']), ('transform', True),
